@@ -207,11 +207,17 @@ where
 
             let wait_read = async {
                 let mut buffer = self.state.take_buffer();
-                if buffer.is_empty() {
+                // Bytes buffered while waiting for a request have already been parsed
+                // and are an incomplete head: parsing them again without reading more
+                // would spin forever
+                if buffer.is_empty() || matches!(self.state, State::WaitingRequest(_)) {
                     if matches!(self.state, State::RequestInProgress(_)) {
                         let _ = self.upload_tx.reserve().await;
                     }
-                    self.transport_stream.read_buf(&mut buffer).await?;
+                    if self.transport_stream.read_buf(&mut buffer).await? == 0 {
+                        // EOF, possibly in the middle of a head
+                        buffer.clear();
+                    }
                 }
                 Ok(buffer)
             };
